@@ -2,6 +2,7 @@ package props
 
 import (
 	"fmt"
+	"strings"
 	"testing"
 
 	"verifharness/core"
@@ -15,6 +16,7 @@ func TestC20(t *testing.T) {
 		r := e.r
 		maxN := e.cfg.Pick(2500, 12000) // container sizes; documents reach ~30 KB quick / ~150-400 KB thorough
 		maxUse := 0.0
+		maxUseAt := ""
 		var maxTiny uint64
 		maxPerByte := 0.0
 		readFns := []string{"ReadValue", "ReadObject", "ReadArray", "pkg.ReadValue", "pkg.ReadObject", "pkg.ReadArray"}
@@ -46,6 +48,7 @@ func TestC20(t *testing.T) {
 			r.Label("history." + kind)
 			if run.maxUse > maxUse {
 				maxUse = run.maxUse
+				maxUseAt = fmt.Sprintf("%s %s%v (+%d more steps)", steps[0].Kind, strings.Join(steps[0].Strs, ","), steps[0].Ints, len(steps)-1)
 			}
 			if run.maxTinyCall > maxTiny {
 				maxTiny = run.maxTinyCall
@@ -77,7 +80,7 @@ func TestC20(t *testing.T) {
 		}
 		// 1. single documents of every adversarial family, sizes drawn, through every function
 		e.rapidStage("shapes", "rapid", e.cfg.N(2500, 60000), func(rt *rapid.T) {
-			fam := []string{"big-then-small", "big-then-small", "big-then-small", "alternating", "wide-flat", "deep", "escapes-every-level", "escaped-keys", "truncated-big"}[rapid.IntRange(0, 8).Draw(rt, "family")]
+			fam := []string{"big-then-small", "big-then-small", "big-then-small", "alternating", "wide-flat", "deep", "escapes-every-level", "escaped-keys", "truncated-big", "escape-run", "escape-run"}[rapid.IntRange(0, 10).Draw(rt, "family")]
 			var p []int64
 			switch fam {
 			case "big-then-small":
@@ -92,6 +95,8 @@ func TestC20(t *testing.T) {
 				p = []int64{int64(rapid.IntRange(1, e.cfg.Pick(1500, 9990)).Draw(rt, "depth"))}
 			case "escaped-keys":
 				p = []int64{int64(rapid.IntRange(0, maxN).Draw(rt, "n"))}
+			case "escape-run":
+				p = []int64{int64(rapid.IntRange(0, 4*maxN).Draw(rt, "n")), int64(rapid.IntRange(0, 39).Draw(rt, "kind"))}
 			}
 			fns := append(append([]string{}, readFns...), bufFns...)
 			fn := fns[rapid.IntRange(0, len(fns)-1).Draw(rt, "fn")]
@@ -125,6 +130,24 @@ func TestC20(t *testing.T) {
 					if err := runHistory("very-deep", steps, true); err != nil {
 						r.Fail(caseOf("C20", "very-deep", nil, err), err)
 						break vd
+					}
+				}
+			}
+		}
+		// 1a'. one string holding a long run of each escape kind after each prefix kind
+		if e.enumStage("escape-runs", "40 (escape unit x prefix) kinds x n in {2000, 8000} through ReadValue and pkg.ReadValue", true) {
+		er:
+			for k := int64(0); k < 40; k++ {
+				if !e.cfg.Mine(int(k)) {
+					continue
+				}
+				for _, n := range []int64{2000, 8000} {
+					for _, fn := range []string{"ReadValue", "pkg.ReadValue"} {
+						steps := []core.Case{{Kind: fn, Strs: []string{"escape-run"}, Ints: []int64{1, 0, n, k}}}
+						if err := runHistory("escape-run", steps, true); err != nil {
+							r.Fail(caseOf("C20", "escape-run", nil, err), err)
+							break er
+						}
 					}
 				}
 			}
@@ -217,6 +240,7 @@ func TestC20(t *testing.T) {
 			}
 		})
 		r.Extra("max_bound_utilisation", maxUse)
+		r.Extra("max_bound_utilisation_at", maxUseAt)
 		r.Extra("max_alloc_of_a_later_call_on_a_tiny_input_bytes", maxTiny)
 		r.Extra("max_alloc_per_input_byte_on_inputs_over_4KiB", maxPerByte)
 		r.Extra("bound", fmt.Sprintf("sum(alloc) <= sum(len*(K + %d*D)) + %d*calls over every prefix of a history, K = %d for the generic decoders and %d for Valid/SkipValue/SkipValueFast/Handle*Values", c20Kd, c20C, c20K, c20KBuf))
